@@ -78,8 +78,9 @@ def run(ctx):
         rp = go.reports.get("replay") or {}
         nb = int((rp.get("extra") or {}).get("behaviours", 0))
         claims = int((rp.get("counters") or {}).get("claims", 0))
-        if nb < 40000 or claims < 1000:
-            ctx.broken("replay covered only %d behaviours / %d claims" % (nb, claims))
+        expected_claims = int((rp.get("counters") or {}).get("claims_expected", 0))
+        if (nb < 40000 or expected_claims < 1000) and not ctx.violations:
+            ctx.broken("replay covered only %d behaviours / %d executions in which the specification claims" % (nb, expected_claims))
         ctx.note("replayed %d execution sequences (%d executions, %d inactivity claims) on the real heartbeatAction" % (
             nb, int((rp.get("counters") or {}).get("executions", 0)), claims))
         ctx.extra["code_constants"] = (rp.get("extra") or {}).get("code_constants")
